@@ -543,4 +543,183 @@ func TestInnerTypeDoesNotRebindRoot(t *testing.T) {
 	})
 }
 
+// ---------------------------------------------------------------------------------------
+// Truth tables: a position with an "or" rule (or a reference to a type that has one) accepts exactly
+// the union of what its alternatives accept. Every alternative comes with the probes it admits; the
+// expected verdict of a probe is the OR over the alternatives. Probes on which an alternative's
+// verdict is not certain (non-empty containers under by-name container alternatives) are left out.
+const chkTable = "alternatives-truth-table"
+
+type TableCase struct {
+	Spec   lib.Spec `json:"spec"`
+	Accept []string `json:"documents_that_must_be_accepted"`
+	Reject []string `json:"documents_that_must_be_rejected"`
+	// MustCheck: the example is a value of one of the alternatives, so Check has to accept the schema
+	MustCheck bool `json:"check_must_accept,omitempty"`
+}
+
+func init() {
+	run.RegisterReplay(chkTable, func(t run.TB, raw json.RawMessage) {
+		var c TableCase
+		if err := json.Unmarshal(raw, &c); err != nil {
+			t.Fatalf("bad case: %v", err)
+		}
+		checkTable(t, c)
+	})
+}
+
+func checkTable(t run.TB, c TableCase) bool {
+	s, add := lib.Build(c.Spec)
+	cr := lib.Check(s)
+	if add.Panic != "" || cr.Panic != "" {
+		run.Fail(t, chkTable, c, "panic: add=%v check=%v", add, cr)
+	}
+	if !add.OK || !cr.OK {
+		if c.MustCheck {
+			run.Fail(t, chkTable, c, "the example is a value of one of the alternatives, yet Check refuses the schema (the position then accepts nothing): add=%v check=%v", add, cr)
+		}
+		return false
+	}
+	for _, d := range c.Accept {
+		if v := lib.Validate(s, []byte(d)); !v.OK {
+			run.Fail(t, chkTable, c, "document %s is admitted by one of the alternatives but rejected: %v", d, v)
+		}
+	}
+	for _, d := range c.Reject {
+		if v := lib.Validate(s, []byte(d)); v.OK {
+			run.Fail(t, chkTable, c, "document %s is admitted by none of the alternatives but accepted", d)
+		}
+	}
+	return true
+}
+
+func TestAlternativeTables(t *testing.T) {
+	run.SkipIfReplaying(t)
+	defer run.Done(t, chkTable)
+	probes := []string{"[]", "[1]", "{}", `{"a":1}`, "1", "5", `"ab"`, `"y"`, "null", "true", "1.5"}
+	type alt struct {
+		text  string
+		admit string // space separated probes; "*" all
+		arr   bool   // says something about arrays beyond the empty one that this table does not model
+		obj   bool
+	}
+	pool := []alt{
+		{`"string"`, `"ab" "y"`, false, false}, {`"integer"`, "1 5", false, false}, {`"null"`, "null", false, false}, {`"boolean"`, "true", false, false},
+		{`{type: "integer", min: 2}`, "5", false, false}, {`{type: "string", minLength: 2}`, `"ab"`, false, false}, {`{enum: ["y", 1]}`, `"y" 1`, false, false},
+		{`{type: "float"}`, "1 5 1.5", false, false}, // (rule sets that name no type are left out: which kind they stand for is not stated)
+		{`{type: "array", minItems: 1}`, "", true, false}, {`{type: "array", minItems: 2, maxItems: 3}`, "", true, false},
+		{`{type: "array"}`, "[]", true, false}, {`{type: "array", maxItems: 3}`, "[]", true, false}, {`{type: "array", minItems: 0}`, "[]", true, false}, {`{type: "array", maxItems: 0}`, "[]", true, false},
+		{`{type: "object"}`, "{}", false, true}, {`"any"`, "*", false, false}, {`{type: "any"}`, "*", false, false},
+	}
+	rapid.Check(t, func(t *rapid.T) {
+		var c TableCase
+		fam := rapid.IntRange(0, 3).Draw(t, "family")
+		switch fam {
+		case 0, 1:
+			n := rapid.IntRange(2, 3).Draw(t, "n")
+			var alts []alt
+			seen := map[string]bool{}
+			for len(alts) < n {
+				a := rapid.SampledFrom(pool).Draw(t, "alt")
+				if !seen[a.text] {
+					seen[a.text] = true
+					alts = append(alts, a)
+				}
+			}
+			admits := func(d string) (yes, certain bool) {
+				certain = true
+				for _, a := range alts {
+					if a.admit == "*" {
+						return true, true
+					}
+					for _, x := range strings.Fields(a.admit) {
+						if x == d {
+							yes = true
+						}
+					}
+					if a.arr && strings.HasPrefix(d, "[") && d != "[]" || a.obj && strings.HasPrefix(d, "{") && d != "{}" {
+						certain = false
+					}
+				}
+				return yes, certain || yes
+			}
+			// the example: a scalar some alternative admits
+			example := ""
+			for _, e := range []string{"1", "5", `"ab"`, `"y"`, "true", "null", "1.5"} {
+				if y, _ := admits(e); y {
+					example = e
+					break
+				}
+			}
+			if example == "" {
+				return
+			}
+			var texts []string
+			for _, a := range alts {
+				texts = append(texts, a.text)
+			}
+			or := example + " // {or: [" + strings.Join(texts, ", ") + "]}"
+			wrap := func(d string) string { return d }
+			switch rapid.IntRange(0, 3).Draw(t, "host") {
+			case 0:
+				c.Spec = lib.Spec{Schema: or}
+			case 1:
+				c.Spec = lib.Spec{Schema: "{\n  \"p\": " + or + "\n}"}
+				wrap = func(d string) string { return `{"p":` + d + `}` }
+			case 2:
+				c.Spec = lib.Spec{Schema: "{ // {additionalProperties: \"@t\"}\n}", Types: []lib.Named{{Name: "@t", Text: or}}}
+				wrap = func(d string) string { return `{"k":` + d + `}` }
+			default:
+				c.Spec = lib.Spec{Schema: "[\n  @t\n]", Types: []lib.Named{{Name: "@t", Text: or}}}
+				wrap = func(d string) string { return `[` + d + `]` }
+			}
+			for _, d := range probes {
+				y, certain := admits(d)
+				switch {
+				case !certain:
+				case y:
+					c.Accept = append(c.Accept, wrap(d))
+				default:
+					c.Reject = append(c.Reject, wrap(d))
+				}
+			}
+			run.Label("table:or-of-rule-sets")
+		case 2:
+			// a type whose values are of several JSON kinds, named on an example of one of them
+			e := lib.Named{Name: "@e", Text: rapid.SampledFrom([]string{`"a" // {enum: ["a", 1, null]}`, `1 // {enum: [1, "a", null]}`, "null // {enum: [null, \"a\", 1]}"}).Draw(t, "enumType")}
+			b := lib.Named{Name: "@b", Text: "true"}
+			ex := rapid.SampledFrom([]string{"1", `"a"`, "null"}).Draw(t, "example")
+			rule := rapid.SampledFrom([]string{`{type: "@e"}`, `{or: ["@e", "@b"]}`, `{or: [{type: "@e"}, {type: "boolean"}]}`}).Draw(t, "rule")
+			c.Spec = lib.Spec{Schema: ex + " // " + rule, Types: []lib.Named{e, b}}
+			c.MustCheck = true
+			c.Accept = []string{"1", `"a"`, "null"}
+			c.Reject = []string{"2", `"b"`, "[]", "{}", "1.5"}
+			if strings.Contains(rule, "or") {
+				c.Accept = append(c.Accept, "true")
+			} else {
+				c.Reject = append(c.Reject, "true")
+			}
+			run.Label("table:type-of-several-kinds")
+		default:
+			// a key shortcut whose string type has an alternative that takes every string
+			every := rapid.SampledFrom([]string{`"string"`, `{type: "string"}`, `{type: "string", minLength: 0}`}).Draw(t, "everyString")
+			ex := rapid.SampledFrom([]string{`"x"`, `"12"`, `"nn"`}).Draw(t, "keyExample")
+			alts := []string{every, `"@n"`}
+			if rapid.Bool().Draw(t, "order") {
+				alts[0], alts[1] = alts[1], alts[0]
+			}
+			c.Spec = lib.Spec{Schema: "{\n  @k: 1\n}", Types: []lib.Named{{Name: "@k", Text: ex + " // {or: [" + strings.Join(alts, ", ") + "]}"}, {Name: "@n", Text: `"nn"`}}}
+			c.MustCheck = true
+			c.Accept = []string{`{"abc":1}`, `{"x":1}`, `{"nn":1}`, `{"12":2}`, `{"":3}`, `{"abc":1,"x":2}`}
+			c.Reject = []string{`{"abc":"s"}`, `{"x":null}`}
+			run.Label("table:key-type-with-an-alternative-for-every-string")
+		}
+		judged := checkTable(t, c)
+		run.Eval(chkTable, judged, fmt.Sprint(c.Spec))
+		if judged {
+			run.Sample(chkTable, c)
+		}
+	})
+}
+
 func TestReplay(t *testing.T) { run.TestReplay(t) }
